@@ -1311,8 +1311,23 @@ class Evaluator:
         return val if not ctor else Const(None)
 
     def is_new_helper(self, fi: FuncInfo) -> bool:
-        return self.known is not None and fi.fq not in self.known and "abstractmethod" not in fi.decorators \
-            and not (fi.name.startswith("__") and fi.name.endswith("__"))
+        if self.known is None or fi.fq in self.known or "abstractmethod" in fi.decorators \
+                or (fi.name.startswith("__") and fi.name.endswith("__")):
+            return False
+        return not self._moved_known(fi)
+
+    def _moved_known(self, fi: FuncInfo) -> bool:
+        """A known private function that only changed its place (method -> module level, other class or module) is still that
+        function: the only one of its bare name in the program, while a known function of that name is gone."""
+        if not fi.name.startswith("_"):
+            return False
+        cache = self.__dict__.setdefault("_moved_cache", {})
+        if fi.fq not in cache:
+            gone = [k for k in self.known if k.rsplit(".", 1)[-1].rsplit(":", 1)[-1] == fi.name
+                    and self.repo.find_func(*k.split(":", 1)) is None]
+            same = [f for m in self.repo.modules.values() for q, f in m.functions.items() if q.rsplit(".", 1)[-1] == fi.name]
+            cache[fi.fq] = bool(gone) and len(same) == 1
+        return cache[fi.fq]
 
     def _split_guard(self, g):
         return g, App("not", (g,))
